@@ -17,7 +17,7 @@ ASSUMPTIONS = ["scipy's sf kernels compute the named distributions (trusted, com
                "axioms 0 <= sf <= 1 and sf non-increasing in its first argument", "parameters positive", "time items strictly increasing",
                "log-normal transform: only exp(log x) = x for x > 0 is used about exp/log/sqrt"]
 OUTSIDE = ["numerical accuracy of scipy's kernels", "n_pts_per_interval outside 1..10", "float rounding of ages and weights", "n > 4"]
-BOUNDS = {"quick": dict(n=[3], classes=5, inflow_at=["start", "middle", "end"], n_pts="1..10 (all ten rules)", param_shapes="scalar, (r), (t), (t,r), (r,t)", grids=dsm.GRIDS),
+BOUNDS = {"quick": dict(n="3 (unit, const grids), 4 (uneven grids)", classes=5, inflow_at=["start", "middle", "end"], n_pts="1..10 (all ten rules)", param_shapes="scalar, (r), (t), (t,r), (r,t)", grids=dsm.GRIDS),
           "thorough": dict(n=[3, 4], classes=5, inflow_at=["start", "middle", "end"], n_pts="1..10", param_shapes="as quick + (r,p) orders", grids=dsm.GRIDS)}
 OPTS = {"quick": dict(shadow_every=10, timeout_ms=20000, max_paths=100), "thorough": dict(shadow_every=40, timeout_ms=60000, max_paths=100)}
 REAL = {"FixedLifetime": ["mean"], "NormalLifetime": ["mean", "std"], "FoldedNormalLifetime": ["mean", "std"],
@@ -31,7 +31,8 @@ def configs(tier, seed):
     ns = [3] if tier == "quick" else [3, 4]
     for lt in REAL:
         for grid in dsm.GRIDS:
-            for n in ns:
+            # with 3 items the mirrored end intervals make every interval (y2-y0)/2 long: an "uneven" grid needs n >= 4
+            for n in (ns if grid != "uneven" else sorted(set(ns) | {4}) if tier == "thorough" else [4]):
                 for ia, npts in [("start", 1), ("middle", 1), ("end", 1)] + [("middle", k) for k in range(2, 11)]:
                     shapes = PSHAPES if (npts <= 2 or tier == "thorough") else (["scalar", "rt"] if npts <= 4 else ["scalar"] if npts % 2 else ["rt"])
                     if grid != "uneven" and tier == "quick" and npts > 3:
@@ -162,9 +163,8 @@ def run(cfg, w):
             ws = [Fraction(x / 2) if w.sym else x / 2 for x in gl_weights[k]]
         else:
             etas, ws = [{"start": 0, "middle": Fraction(1, 2) if w.sym else 0.5, "end": 1}[cfg["inflow_at"]]], [1]
-        if w.sym:
-            _axioms(w, w.ctx)
         wsum = sum(ws)
+        chain_prev = {}
         for r in range(2):
             for c in range(n):
                 p = {name: look[name](c, r) for name in look}
@@ -173,11 +173,26 @@ def run(cfg, w):
                         w.ob_eq(f"zero_for_later_cohort[{t},{c},{r}]", sf[t, c, r], 0)
                         continue
                     want = 0
-                    for eta, wt in zip(etas, ws):
+                    for ki, (eta, wt) in enumerate(zip(etas, ws)):
                         one_minus = Fraction(1.0 - float(eta)) if w.sym else 1.0 - eta  # float64 complement, as evaluated by a user
                         inst = eta * b[c + 1] + one_minus * b[c]
-                        want = want + wt * _dist_sf(w, lt, b[t + 1] - inst, p)
-                    w.ob_eq(f"equals_declared_distribution[{t},{c},{r}]", sf[t, c, r], want)
+                        age = b[t + 1] - inst
+                        app = _dist_sf(w, lt, age, p)
+                        if w.sym and lt != "FixedLifetime":
+                            # ground instances of the kernels' contract for exactly the applications of the declared
+                            # distribution: range, and monotonicity along the age chain of this (cohort, label, node)
+                            import z3 as _z3
+                            from svx import sym as _sym
+
+                            w.ctx.assume(_z3.And(app.t >= 0, app.t <= 1))
+                            prev = chain_prev.get((c, r, ki))
+                            if prev is not None:
+                                w.ctx.assume(_z3.Implies(prev[0] <= _sym.term(age), prev[1] >= app.t))
+                            chain_prev[(c, r, ki)] = (_sym.term(age), app.t)
+                        want = want + wt * app
+                    # proved first and handed to the path as a lemma: range and monotonicity of flodym's table then
+                    # follow from the contract instances above
+                    w.lemma_eq(f"equals_declared_distribution[{t},{c},{r}]", sf[t, c, r], want)
                     w.ob(f"in_unit_range[{t},{c},{r}]", w.and_(w.ge(sf[t, c, r], 0), w.le(sf[t, c, r], wsum)))
                     if t > c:
                         w.ob(f"non_increasing_with_age[{t},{c},{r}]", w.le(sf[t, c, r], sf[t - 1, c, r]))
